@@ -494,7 +494,7 @@ fn random_segs(rng: &mut Rng) -> Value {
                 let nsz = rng.below(4);
                 let sizes: Vec<u64> = (0..nsz).map(|_| *rng.pick(&[1u64, 2, 3, 5, 6, 7, 100, 1000, 1024, 8192])).collect();
                 segs.push(json!({"c":"wrap","k":k,"big":rng.chance(4,5),"s":rng.below(1000),"hdr":rng.below(4),
-                    "flags":rng.below(16)*2,"x":*rng.pick(&[0u64,1,300]),"nm":*rng.pick(&[0u64,1,40]),"cm":*rng.pick(&[0u64,1,40]),
+                    "flags":rng.below(16)*2,"x":*rng.pick(&[0u64,0,1,1,300,300,3000,65535]),"nm":*rng.pick(&[0u64,1,40,255,256,5000]),"cm":*rng.pick(&[0u64,1,40,256,5000]),
                     "sizes":sizes,"trail":*rng.pick(&[0u64,0,1,4,7,8,9,20])}));
             }
         }
